@@ -72,6 +72,9 @@ func runOnce(prop, tier string, seed int64, repo, out string, findings []report.
 		rep.Count("module_packages", p.NModule)
 		rep.Count("all_packages", p.NAll)
 		if i == 0 {
+			for _, rn := range p.RenamedFuncs {
+				rep.Note("treated as renamed (same package, receiver and parameter types as a function missing from the reference list): %s is analysed as %s (%s)", rn.New, rn.Old, rn.Pos)
+			}
 			rep.Count("helper_calls_expanded_in_place", len(p.Inlined))
 			for k, il := range p.Inlined {
 				if k < 12 {
